@@ -123,6 +123,16 @@ func verifHarness_C04_onion() {
 		m4, m4id := main()
 		r.GET("/r4", m4)
 		exp["/g/r4"] = verifCat(gids, inner, m4id)
+
+		// routes that already carry their middleware when they are registered
+		m6, m6id := main()
+		r6h, r6 := p.mk(1 + d)
+		r.Any("/r6", m6, r6h...)
+		exp["/g/r6"] = verifCat(gids, inner, r6, m6id)
+		m7, m7id := main()
+		r7h, r7 := p.mk(1 + e)
+		r.AddRoute(NewRoute("/r7", m7, "GET").Use(r7h...))
+		exp["/g/r7"] = verifCat(gids, inner, r7, m7id)
 	}, gh...)
 
 	g3h, g3 := p.mk(h)
@@ -144,7 +154,7 @@ func verifHarness_C04_onion() {
 	}
 	globals := verifCat(g1, g2, g3)
 
-	targets := []string{"/r0", "/g/r1", "/g/r2", "/g/h/r3", "/g/r4", "/r5", "/nowhere", "/r0"}
+	targets := []string{"/r0", "/g/r1", "/g/r2", "/g/h/r3", "/g/r4", "/r5", "/nowhere", "/r0", "/g/r6", "/g/r7"}
 	t := verifChoice("target", len(targets))
 	method := "GET"
 	var chain []int
